@@ -25,7 +25,11 @@ theorem readonly_serve (cfg : Cfg) (h : cfg.allowWrite = false) :
     intro w st input acc used
     unfold serve
     split
-    · rfl
+    · -- a truncated request: `partialWrite` needs writing to be enabled
+      unfold partialWrite
+      cases truncatedWrite input with
+      | none => rfl
+      | some p => simp [h]
     · rfl
     · rename_i r rest _
       have hw := readonly_step cfg h w st r
